@@ -49,6 +49,15 @@
 //              closure), selected by two regular expressions that must each match exactly one statement;
 //              variables that flow in become parameters, the named variables flow out.  PREFER whole functions: a statement
 //              inserted outside the markers is invisible to a region.
+// Canonical output (round 3c): the generated text does not depend on the names of Go locals, parameters or receivers (SSA
+// definitions are `f.v<k>` in translation order, parameters `a<i>`, receiver fields `r_<field>`, loop / lambda binders `i<k>`,
+// `x<k>`, `b<k>`; a comment block per function maps them to the Go names and lines), on comments, on error texts (an error is
+// only "an error"), on the order of adjacent independent pure initialisations (sorted by kind and text), on the spelling of
+// some equivalent forms (`for i := range n` / range over a byte slice = the index loop, `var z [n]byte` = make, append to an
+// empty buffer / Clone = the operand, tagless switch = if-chain).  Flags may name callees independently of local names
+// (`r.bc.Encrypt`, `a2.id`, `(crypto/cipher.Block).Encrypt`, `crypto/aes.NewCipher`).  Same-package helpers that a translated
+// function calls are translated on demand with the caller's flags (a refactoring that extracts a helper then reaches the tie
+// theorems instead of failing here).  tools/migrate_names.py is the one-off script that moved the proofs to the canonical names.
 // Never silent: an unknown construct, a missing function / marker, a receiver field assigned outside -stateful, a written
 // slice parameter that no return hands back, several random draws under -fill … are errors (non-zero exit; check reports the
 // owner properties' tie as broken).
@@ -105,6 +114,8 @@ type unit struct {
 	repr           map[string]kind  // named types (pkgpath.Name) represented by a value of the given kind
 	regions        []regionSpec
 	procs          map[string]int // emitted procedures with exactly one written slice parameter: name -> its index
+	inProgress     map[string]bool
+	failedHelper   map[string]bool
 	sigs           map[string]*fsig // every emitted function: its Lean binders (callable from later functions of the unit)
 
 	pkg   *types.Package
@@ -121,6 +132,8 @@ type tr struct {
 	u     *unit
 	errs  []string
 	f     *fctx
+	pending []string    // definitions of helpers translated on demand, emitted before the function that needed them
+	nameMap [][2]string // legacy (Go-named) definition name -> canonical name, written with -namemap
 }
 
 func (t *tr) fail(n ast.Node, format string, a ...any) string {
@@ -148,6 +161,21 @@ func init() {
 		"Type Prop Sort fun forall exists true false") {
 		reserved[w] = true
 	}
+}
+
+// patternsOf: all callee patterns the flags give for a function
+func (u *unit) patternsOf(fn string) []string {
+	var r []string
+	for _, l := range [][]opq{u.opaque[fn], u.block[fn], u.apply[fn], u.fill[fn], u.ctor[fn], u.inout[fn], u.mutate[fn]} {
+		for _, o := range l {
+			r = append(r, o.callee)
+		}
+	}
+	r = append(r, u.abstract[fn]...)
+	for _, e := range u.extern[fn] {
+		r = append(r, e.callee)
+	}
+	return r
 }
 
 func (u *unit) absNames() []string {
@@ -192,7 +220,7 @@ func die(f string, a ...any) {
 func main() {
 	args := os.Args[1:]
 	t := &tr{fset: token.NewFileSet()}
-	out := ""
+	out, mapOut := "", ""
 	var cur *unit
 	need := func(i int) string {
 		if i+1 >= len(args) {
@@ -202,10 +230,13 @@ func main() {
 	}
 	for i := 0; i < len(args); i += 2 {
 		v := need(i)
-		if args[i] != "-ns" && args[i] != "-out" && args[i] != "-pkg" && cur == nil {
+		if args[i] != "-ns" && args[i] != "-out" && args[i] != "-pkg" && args[i] != "-namemap" && cur == nil {
 			die("flag %s before the first -pkg", args[i])
 		}
 		switch args[i] {
+		case "-namemap": // one-off: write `legacy-name canonical-name` lines for the migration of the proofs
+			mapOut = v
+			t.nameMap = [][2]string{}
 		case "-ns":
 			t.ns = v
 		case "-out":
@@ -213,7 +244,7 @@ func main() {
 		case "-pkg":
 			cur = &unit{dir: v, opaque: map[string][]opq{}, block: map[string][]opq{}, abstract: map[string][]string{},
 				apply: map[string][]opq{}, fill: map[string][]opq{}, ctor: map[string][]opq{}, repr: map[string]kind{}, inout: map[string][]opq{},
-				emitted: map[string]bool{}, procs: map[string]int{}, sigs: map[string]*fsig{},
+				emitted: map[string]bool{}, procs: map[string]int{}, sigs: map[string]*fsig{}, inProgress: map[string]bool{}, failedHelper: map[string]bool{},
 				abs: map[string]string{}, mutate: map[string][]opq{}, records: map[string][]string{}, stateful: map[string]bool{}, extern: map[string][]externOp{}, externKind: map[string]string{}, errcodes: map[string]int{}}
 			cur.sub = strings.Title(filepath.Base(v))
 			t.units = append(t.units, cur)
@@ -354,6 +385,13 @@ func main() {
 	}
 	if err := os.WriteFile(out, []byte(sb.String()), 0o644); err != nil {
 		die("%v", err)
+	}
+	if mapOut != "" {
+		var mb strings.Builder
+		for _, m := range t.nameMap {
+			mb.WriteString(m[0] + " " + m[1] + "\n")
+		}
+		os.WriteFile(mapOut, []byte(mb.String()), 0o644)
 	}
 	fmt.Println("gluetr: translated", len(t.units), "units to", out)
 }
@@ -504,7 +542,16 @@ func (t *tr) emitUnit(u *unit, sb *strings.Builder) {
 		obj := u.pkg.Scope().Lookup(vname)
 		v, ok := obj.(*types.Var)
 		if !ok {
-			t.errs = append(t.errs, "package variable "+vname+" not found in "+u.dir)
+			if c, isConst := obj.(*types.Const); isConst {
+				// the table became a constant: same definition
+				k, _ := classify(c.Type())
+				if lit, ok := constString(c.Val(), k); ok {
+					sb.WriteString(fmt.Sprintf("def %s : %s := %s\n\n", leanName(vname), leanTypeOfKind(k), lit))
+					continue
+				}
+			}
+			// gone: nothing to define; code that still mentions it fails to translate, proofs that mention it fail to check
+			sb.WriteString("/- package variable " + vname + " does not exist in " + u.dir + " -/\n\n")
 			continue
 		}
 		if t.pkgVarWritten(u, v) {
@@ -553,7 +600,15 @@ func (t *tr) emitUnit(u *unit, sb *strings.Builder) {
 			t.errs = append(t.errs, "function "+n+" not found in "+u.dir)
 			continue
 		}
-		sb.WriteString(t.fn(fd))
+		if u.emitted[n] {
+			continue // already translated on demand as a helper of an earlier function
+		}
+		out := t.fn(fd)
+		for _, h := range t.pending {
+			sb.WriteString(h)
+		}
+		t.pending = nil
+		sb.WriteString(out)
 		sb.WriteString("\n")
 		u.emitted[n] = true
 	}
